@@ -314,6 +314,13 @@ def run(prog, chk):
             else:
                 chk.fail("R13.2", fnm, "helper-does-not-quote", "%s no longer calls escape::quote*/force_quote" % fnm)
 
+    # ---- R13.5 declare's attribute filters (shared contradiction rule from C06) -----------------------------------------
+    from rules import c06
+    chk.rule("R13.5", "the attribute filters of `declare -p -A` / `-a` treat declared-but-unassigned arrays like assigned ones (same answer as "
+                      "ShellValue::is_associative_array and the expansion code)")
+    nk = c06.array_kind_agreement(prog, chk, "R13.5", {"brush_builtins"}, "`declare -A m; declare -p -A` does not list m, so the dump does not recreate it")
+    chk.floor("R13.5", "array-kind decisions in the builtins", nk, 1)
+
 
 def _refers_to(prog, body, fn_name):
     """does `body` (or a closure it constructs) call fn_name or pass it as a function value?"""
